@@ -1413,20 +1413,12 @@ func hSet(n *Nodis, conn *redis.Conn, cmd redis.Command) {
 	}
 	execCommand(conn, func() {
 		key := cmd.Args[0]
-		field := cmd.Args[1]
-		value := cmd.Args[2]
-		var i int64 = n.HSet(key, field, []byte(value))
-		if len(cmd.Args) > 3 {
-			var fields = make(map[string][]byte, len(cmd.Args)-3)
-			for i := 3; i < len(cmd.Args); i += 2 {
-				if i+1 >= len(cmd.Args) {
-					break
-				}
-				fields[cmd.Args[i]] = []byte(cmd.Args[i+1])
-			}
-			i += n.HMSet(key, fields)
+		// all pairs in one transaction: nobody sees the hash with only some of the fields of one HSET
+		var fields = make(map[string][]byte, (len(cmd.Args)-1)/2)
+		for i := 1; i+1 < len(cmd.Args); i += 2 {
+			fields[cmd.Args[i]] = []byte(cmd.Args[i+1])
 		}
-		conn.WriteInt64(i)
+		conn.WriteInt64(n.HMSet(key, fields))
 	})
 }
 
